@@ -4,12 +4,16 @@ iteration, len, in, ...) on generated datasets and graphs leaves quads and graph
 gives the same answer twice.  Correspondence with coq/Purity/Model.v (which reuses the C02 model)."""
 from __future__ import annotations
 
+import copy
 import io
+import os
 import pickle
 import re
+import shutil
+import tempfile
 import warnings
 
-from .core import Suite, cN, cbool, clist, copt, ctuple
+from .core import BUILD, Suite, cN, cbool, clist, copt, ctuple
 from .terms import GRAPH_POOL, GRAPH_ID, rdflib, term, term_id, tkey
 from . import c02
 from .c02 import World, c_garg, c_ctxarg, c_pat, c_quad, c_triple, c_op, pat_terms
@@ -20,8 +24,26 @@ from rdflib import BNode, ConjunctiveGraph, Dataset, Graph, Literal, URIRef  # n
 from rdflib.compare import graph_diff, isomorphic, similar, to_canonical_graph, to_isomorphic  # noqa: E402
 from rdflib.paths import AlternativePath, InvPath, MulPath, NegatedPath, SequencePath  # noqa: E402
 
+from rdflib.collection import Collection  # noqa: E402
+from rdflib.graph import ReadOnlyGraphAggregate  # noqa: E402
+from rdflib.namespace import RDF, RDFS  # noqa: E402
+
 A, B, C_, P, Q = term(1), term(2), term(12), term(3), term(4)
 G1 = GRAPH_POOL[0]
+
+# terms beyond the shared pool (numbers > 100), for RDF lists and containers in the generated states
+EXTRA = {101: RDF.first, 102: RDF.rest, 103: RDF.nil, 104: RDF.type, 105: RDF.Seq, 106: RDF._1, 107: RDF._2, 108: RDFS.label}
+EXTRA_ID = {tkey(t): i for i, t in EXTRA.items()}
+LIST_TRIPLES = [[1, 101, 2], [1, 102, 8], [8, 101, 5], [8, 102, 103]]          # ( <b> "" ) headed by <a>
+SEQ_TRIPLES = [[12, 104, 105], [12, 106, 1], [12, 107, 10], [12, 108, 9]]       # <c> a rdf:Seq ; rdf:_1 <a> ; rdf:_2 "x"
+
+
+def xterm(i):
+    return EXTRA[i] if i > 100 else term(i)
+
+
+def xterm_id(t):
+    return EXTRA_ID.get(tkey(t)) or term_id(t)
 
 # vocabulary of VALID triples (IRI/bnode subjects, IRI predicates) so that every serialiser applies
 SUBJ = [1, 2, 8, 12, 13]
@@ -227,6 +249,21 @@ def _as_graph(g, w):
     return g
 
 
+def _content(text, fmt):
+    """what a serialisation SAYS (parsed back into a scratch graph, compared up to isomorphism).  Used where several graphs
+    of one store are serialised in a row: serialising one graph may bind a generated prefix (ns1) in the store's shared
+    namespace table, which changes the text - not the content - of what is written for another graph afterwards; prefix
+    bindings are property C17's state, not C13's."""
+    return "content:" + str(to_isomorphic(Graph().parse(data=text, format=fmt)).internal_hash())
+
+
+def _try(f):
+    try:
+        return f()
+    except Exception as e:  # noqa: BLE001
+        return "exc:" + type(e).__name__
+
+
 def _foreign(g, w):
     f = Graph(identifier=G1)
     f.add((C_, Q, C_))
@@ -333,7 +370,80 @@ READS = [
     ("ds_default", lambda g, w: list(g.default_graph if isinstance(g, Dataset) else g.default_context)),
     ("ds_iter_views", lambda g, w: [sorted(map(repr, c)) for c in sorted(g.contexts(), key=lambda c: repr(c.identifier))]),
     ("ds_union_toggle_read", lambda g, w: w.union_read(g)),
-    # --- reads that are handed a Graph object backed by ANOTHER store (known finding F19)
+    # --- wider catalogue: dataset clauses, more comparisons, files, per-view reads, Resource / Collection / Seq
+    ("q_from_two", query("SELECT ?s ?o FROM <urn:g:1> FROM <urn:g:2> WHERE { ?s ?p ?o }")),
+    ("q_from_and_named", query("SELECT ?g ?s ?x FROM <urn:g:1> FROM NAMED <urn:g:2> FROM NAMED <urn:g:1> WHERE { ?s ?p ?o OPTIONAL { GRAPH ?g { ?s ?q ?x } } }")),
+    ("q_from_empty", query("SELECT ?s FROM <urn:g:5> WHERE { ?s ?p ?o }")),
+    ("q_from_default_id", query("SELECT ?s FROM <urn:x-rdflib:default> WHERE { ?s ?p ?o }")),
+    ("q_ask_from", query("ASK FROM <urn:g:1> { ?s <http://e/p> ?o }")),
+    ("q_construct_from", query("CONSTRUCT { ?s <http://e/r> ?o } FROM <urn:g:1> WHERE { ?s ?p ?o }")),
+    ("q_construct_from_named", query("CONSTRUCT { ?g <http://e/r> ?s } FROM NAMED <urn:g:1> FROM NAMED <urn:g:2> WHERE { GRAPH ?g { ?s ?p ?o } }")),
+    ("q_describe_from", query("DESCRIBE ?s FROM <urn:g:1> WHERE { ?s ?p ?o }")),
+    ("q_select_having_regex", query("SELECT ?s (COUNT(?o) AS ?n) WHERE { ?s ?p ?o FILTER(!isLiteral(?o) || REGEX(STR(?o), '^x?$')) } GROUP BY ?s HAVING (COUNT(?o) > 0)")),
+    ("q_select_graph_path", query("SELECT ?g ?s ?o WHERE { GRAPH ?g { ?s <http://e/p>+ ?o } }")),
+    ("q_select_list", query("SELECT ?m WHERE { <http://e/a> <http://www.w3.org/1999/02/22-rdf-syntax-ns#rest>*/<http://www.w3.org/1999/02/22-rdf-syntax-ns#first> ?m }")),
+    ("q_result_api", lambda g, w: (lambda r: (len(r), bool(r), [sorted((str(k), repr(v)) for k, v in b.items()) for b in r.bindings], len(list(r)), len(list(r))))(g.query("SELECT ?s ?o WHERE { ?s <http://e/p> ?o }"))),
+    ("q_result_csv_txt", lambda g, w: (g.query("SELECT ?s ?o WHERE { ?s ?p ?o } ORDER BY ?s ?o").serialize(format="csv"), g.query("SELECT ?s WHERE { ?s ?p ?o } ORDER BY ?s").serialize(format="txt"))),
+    ("cmp_orderings", lambda g, w: (g <= _other(g, w), g > _other(g, w), g >= _other(g, w), g.__cmp__(_other(g, w)), g.__cmp__(None), g == g, g is None)),
+    ("cmp_isomorphic_views", lambda g, w: w.pairwise(g, lambda a, b: isomorphic(a, b))),
+    ("cmp_method_isomorphic_views", lambda g, w: w.pairwise(g, lambda a, b: a.isomorphic(b))),
+    ("cmp_graph_diff_views", lambda g, w: w.pairwise(g, lambda a, b: ans(graph_diff(a, b)))),
+    ("cmp_similar_views", lambda g, w: w.pairwise(g, lambda a, b: similar(a, b))),
+    ("cmp_to_isomorphic_views", lambda g, w: [to_isomorphic(v).internal_hash() for v in w.views(g)]),
+    ("cmp_to_canonical_views", lambda g, w: [ans(to_canonical_graph(v)) for v in w.views(g)]),
+    ("cmp_isomorphic_graph_digest", lambda g, w: (to_isomorphic(_as_graph(g, w)).graph_digest(), to_isomorphic(_as_graph(g, w)).internal_hash(stats={}))),
+    ("ser_file_turtle", lambda g, w: w.to_file(g, "turtle")), ("ser_file_xml", lambda g, w: w.to_file(g, "xml")),
+    ("ser_file_nt", lambda g, w: w.to_file(g, "nt")), ("ser_file_jsonld", lambda g, w: w.to_file(g, "json-ld")),
+    ("ser_file_trig", lambda g, w: w.to_file(g, "trig")), ("ser_file_nquads", lambda g, w: w.to_file(g, "nquads")),
+    ("ser_file_hext", lambda g, w: w.to_file(g, "hext")), ("ser_file_default", lambda g, w: w.to_file(g, None)),
+    ("ser_each_view_turtle", lambda g, w: [_content(v.serialize(format="turtle"), "turtle") for v in w.views(g)]),
+    ("ser_each_view_nt", lambda g, w: [_content(v.serialize(format="nt"), "nt") for v in w.views(g)]),
+    ("ser_each_view_xml", lambda g, w: [_content(v.serialize(format="xml"), "xml") for v in w.views(g)]),
+    ("ser_each_view_jsonld", lambda g, w: [_content(v.serialize(format="json-ld"), "json-ld") for v in w.views(g)]),
+    ("ser_each_view_longturtle_n3", lambda g, w: [(_content(v.serialize(format="longturtle"), "turtle"), _content(v.serialize(format="n3"), "n3")) for v in w.views(g)]),
+    ("ser_each_view_hext", lambda g, w: [_content(v.serialize(format="hext"), "hext") for v in w.views(g)]),
+    ("aggregate_reads", lambda g, w: (lambda r: (len(r), sorted(map(repr, r.triples((None, None, None)))), (A, P, B) in r,
+                                                 sorted(repr((q[0], q[1], q[2])) for q in r.quads((None, None, None))),
+                                                 sorted(map(repr, r.triples((A, P * "+", None))))))(ReadOnlyGraphAggregate(w.views(g) or [Graph()]))),
+    ("aggregate_query", lambda g, w: ReadOnlyGraphAggregate(w.views(g) or [Graph()]).query("SELECT ?s ?o WHERE { ?s <http://e/p> ?o }")),
+    ("copy_copy_deepcopy", lambda g, w: (ans(copy.copy(_as_graph(g, w))), ans(copy.deepcopy(_as_graph(g, w))))),
+    ("resource_api", lambda g, w: (lambda r: (
+        sorted(repr(x.identifier if hasattr(x, "identifier") else x) for x in r.subjects(P)),
+        sorted(repr(x.identifier if hasattr(x, "identifier") else x) for x in r.objects()),
+        sorted(repr(x.identifier) for x in r.predicates()),
+        sorted(repr(x.identifier if hasattr(x, "identifier") else x) for x in r.transitive_objects(P)),
+        sorted(repr(x.identifier if hasattr(x, "identifier") else x) for x in r.transitive_subjects(P)),
+        [repr(x.identifier if hasattr(x, "identifier") else x) for x in r.items()],
+        r.qname(), repr(r.identifier), str(r), r == g.resource(A), hash(r) == hash(g.resource(A)),
+        sorted(repr(x.identifier if hasattr(x, "identifier") else x) for x in r[P]),
+        sorted(repr(x.identifier if hasattr(x, "identifier") else x) for x in r[P / Q]),
+        r.value(P, default=None) is None, r.graph is g))(g.resource(A))),
+    ("resource_bnode_literal_objects", lambda g, w: [sorted(repr(o.identifier if hasattr(o, "identifier") else o) for o in g.resource(s).objects(P)) for s in (B, BNode("b1"), C_)]),
+    ("collection_api", lambda g, w: (lambda c: (len(c), [repr(x) for x in c], c.n3(), _try(lambda: repr(c[0])), _try(lambda: repr(c[5])),
+                                                _try(lambda: c.index(B)), _try(lambda: c.index(Literal("nope"))), B in list(c)))(Collection(g, A))),
+    ("collection_nil_and_missing", lambda g, w: (len(Collection(g, RDF.nil)), list(Collection(g, RDF.nil)), len(Collection(g, C_)), list(Collection(g, BNode("b2"))))),
+    ("items_all_heads", lambda g, w: [_try(lambda s=s: [repr(x) for x in g.items(s)]) for s in (A, BNode("b1"), RDF.nil, C_)]),
+    ("seq_read", lambda g, w: (lambda q: None if q is None else (len(q), [repr(x) for x in q], repr(q[0]), _try(lambda: repr(q[7]))))(rdflib.graph.Seq(g, C_))),
+    ("seq_missing", lambda g, w: (len(rdflib.graph.Seq(g, A)), list(rdflib.graph.Seq(g, BNode("b2"))))),
+    ("value_variants", lambda g, w: (repr(g.value(A, RDF.first)), repr(g.value(predicate=RDF.first, object=B, any=True)), repr(g.value(A, None, B, any=True)),
+                                     _try(lambda: repr(g.value(A, P, any=False))), repr(g.value(C_, RDFS.label, default=Literal("d"))))),
+    ("predicate_objects_unique", lambda g, w: (sorted(map(repr, g.predicates(unique=True))), sorted(map(repr, g.objects(unique=True))),
+                                               sorted(map(repr, g.subject_objects(unique=True))), sorted(map(repr, g.predicate_objects(unique=True))))),
+    ("nsm_reads", lambda g, w: (g.namespace_manager.normalizeUri(str(P)), _try(lambda: g.namespace_manager.compute_qname(str(RDF.first), generate=False)),
+                                g.namespace_manager.qname_strict(str(RDF.type)) if hasattr(g.namespace_manager, "qname_strict") else None,
+                                g.namespace_manager.expand_curie("rdf:type"), Literal("x", lang="en").n3(g.namespace_manager))),
+    ("ds_store_reads", lambda g, w: (len(g.store), sorted(repr(c.identifier) for c in g.store.contexts()), sorted(repr(c.identifier) for c in g.store.contexts((A, P, B))),
+                                     g.store.context_aware, g.store.graph_aware)),
+    ("ds_len_each", lambda g, w: sorted((repr(c.identifier), len(c), bool(c)) for c in g.contexts())),
+    ("ds_contains_each", lambda g, w: [((A, P, B, c.identifier) in g, (A, P, B, c) in g, (None, None, None, c) in g) for c in sorted(g.contexts(), key=lambda c: repr(c.identifier))]),
+    ("ds_triples_choices_ctx", lambda g, w: (list(g.triples_choices(([A, B], P, None))), list(g.triples_choices((A, [P, Q], None), context=g.get_context(G1))))),
+    ("ds_quads_each_shape", lambda g, w: [sorted(repr((q[0], q[1], q[2], getattr(q[3], "identifier", q[3]))) for q in g.quads(pat)) for pat in
+                                          ((A, None, None, None), (None, None, B, None), (A, P, B, None), (None, P, None, GRAPH_POOL[2]), (A, P, B, G1))]),
+    ("ds_path_ctx", lambda g, w: (list(g.triples((None, P * "+", None), context=g.get_context(G1))), list(g.triples((A, P / Q, None))))),
+    ("ds_remove_nothing_free_reads", lambda g, w: (g.get_context(G1) == g.get_context(G1), g.get_context(G1) == g.get_context(GRAPH_POOL[2]), len(g.get_context(URIRef("urn:nowhere"))))),
+    ("ds_foreign_triples_choices", lambda g, w: list(g.triples_choices(([A, C_], Q, None), context=_foreign(g, w)))),
+    ("ds_foreign_triples_path", lambda g, w: list(g.triples((None, Q * "*", None), context=_foreign(g, w)))),
+    # --- reads that are handed a Graph object backed by ANOTHER store (F19, repaired: they no longer copy it in)
     ("ds_triples_foreign_ctx", lambda g, w: list(g.triples((None, None, None), context=_foreign(g, w)))),
     ("ds_in_foreign_quad", lambda g, w: (C_, Q, C_, _foreign(g, w)) in g),
     ("ds_quads_foreign", lambda g, w: list(g.quads((None, None, None, _foreign(g, w))))),
@@ -355,6 +465,26 @@ class PWorld(World):
         o.add((A, Q, Literal("x")))
         return o
 
+    def views(self, g):
+        """the graphs to look at one by one: every context of a front end, or the graph itself"""
+        if isinstance(g, ConjunctiveGraph):
+            return sorted(g.contexts(), key=lambda c: repr(c.identifier))
+        return [g]
+
+    def pairwise(self, g, f):
+        vs = self.views(g) + [_other(g, self)]
+        return [f(a, b) for a in vs for b in vs]
+
+    def to_file(self, g, fmt):
+        d = tempfile.mkdtemp(dir=BUILD)
+        try:
+            path = os.path.join(d, "out")
+            r = g.serialize(destination=path, format=fmt) if fmt else g.serialize(destination=path)
+            with open(path, "rb") as f:
+                return (r is g, f.read().decode("utf-8", "replace"))
+        finally:
+            shutil.rmtree(d, ignore_errors=True)
+
     def union_read(self, g):
         old = g.default_union
         try:
@@ -370,9 +500,9 @@ class PWorld(World):
         for (s, p, o), ctxs in self.store.triples((None, None, None), None):
             cs = list(ctxs)
             if not cs:
-                quads.append([term_id(s), term_id(p), term_id(o), 996])  # in the union only: no graph
+                quads.append([xterm_id(s), xterm_id(p), xterm_id(o), 996])  # in the union only: no graph
             for c in cs:
-                quads.append([term_id(s), term_id(p), term_id(o), self.gid(c)])
+                quads.append([xterm_id(s), xterm_id(p), xterm_id(o), self.gid(c)])
         names = sorted(self.gid(c) for c in self.store.contexts())
         return [sorted(quads), names]
 
@@ -390,8 +520,6 @@ class C13(Suite):
     imports = "From RV Require Import Purity.Model."
     case_ty = "pcase"
     obs_ty = "pobs"
-    kf = "pkf"
-    kf_ids = {1: "F19"}
     corr = ("every read-only entry point of Graph / ConjunctiveGraph / Dataset, the serialiser plugins, the SPARQL engine, "
             "rdflib.compare and rdflib.paths; modelled in Coq: ConjunctiveGraph._graph/triples/quads/__contains__, "
             "Dataset.graphs, contexts, get_context, __len__")
@@ -425,6 +553,12 @@ class C13(Suite):
                     build.append(["graph", ["id", c]])  # possibly an empty known graph
             if rng.random() < 0.15:
                 build.append(["rmgraph", ["id", rng.choice(used)]])
+        if rng.random() < 0.25:  # an RDF list headed by <a>, for items() / Collection reads
+            c = rng.choice(used)
+            build += [["add", t, ["q", ["id", c]]] for t in LIST_TRIPLES]
+        if rng.random() < 0.2:   # an rdf:Seq, for Graph.seq reads
+            c = rng.choice(used)
+            build += [["add", t, ["q", ["id", c]]] for t in SEQ_TRIPLES]
         if rng.random() < 0.15 and build:
             build.append(["rem", [None, None, None], ["q", ["id", rng.choice(used)]]])  # emptied but still known
         rng.shuffle(build)
@@ -432,8 +566,6 @@ class C13(Suite):
         names = [n for n, _ in READS]
         for _ in range(rng.choice([4, 6, 8, 10])):
             n = rng.choice(names)
-            if n in FOREIGN_READS and rng.random() < 0.7:
-                n = rng.choice(names)
             if n in DS_ONLY or rng.random() < 0.55:
                 tgt = "ds"
             else:
@@ -445,7 +577,10 @@ class C13(Suite):
         rdflib.plugins.sparql.SPARQL_LOAD_GRAPHS = False
         w = PWorld(case["ds"], case["du"])
         for op in case["build"]:
-            c02.do_op(w, op)
+            if op[0] == "add":
+                w.d.add(w.toq(tuple(xterm(x) for x in op[1]), op[2]))
+            else:
+                c02.do_op(w, op)
         w.d.default_union = case["du"]
         obs = [w.snap(), []]
         for name, tgt in case["reads"]:
@@ -518,6 +653,8 @@ class C13(Suite):
              ["add", [2, 3, 1], ["q", ["id", 1]]], ["add", [2, 4, 13], ["q", ["id", 4]]], ["graph", ["id", 2]]],
             [["add", [13, 3, 8], ["q", ["id", 3]]], ["add", [1, 4, 7], ["q", ["id", 3]]]],
             [["graph", ["id", 1]]],
+            [["add", t, ["q", ["id", 1]]] for t in LIST_TRIPLES] + [["add", t, ["q", ["id", 3]]] for t in SEQ_TRIPLES]
+            + [["add", [1, 3, 2], "t"], ["add", [2, 3, 1], ["q", ["id", 1]]]],
         ]
         for is_ds in (True, False):
             for du in (False, True):
